@@ -2,7 +2,7 @@
    input : "<mode> <entry> <ca> <hs_ok> <tls_err> <stream> <after>"
            mode T|N|A|R|S<digits>|P<role>|Q<role>, entry starttls|legacy[+m], ca ca|noca|badca|cadir, hs_ok 0|1,
            stream = comma separated <preverify_ok><role of the certificate the verdict is about> per invocation, as
-           observed (role 0 leaf, 1 intermediate, 2 root), or -, after close|silent
+           observed (role 0 leaf, 1 intermediate, 2 root), or -, after close|silent, optionally the handler history
    output: the fields of the C driver's line that the model predicts, plus pol=<policy_ok of the spec on this run> *)
 let tok = function WHeader -> "H" | WStartTls -> "S" | WAuth -> "A" | WBind -> "B" | WClose -> "X"
 let b2s b = if b then "1" else "0"
@@ -11,7 +11,11 @@ let dash s = if s = "" then "-" else s
 let () = iter_lines (fun line ->
   if line = "" || line.[0] = '#' then "" else
   match split_ws line with
-  | [mode; entry; ca; hs; te; stream; after] ->
+  | mode :: entry :: ca :: hs :: te :: stream :: after :: rest ->
+    (* optional 8th field: earlier handler settings on the same connection object (A accept-all, R reject-all, N none) *)
+    let hist = match rest with h :: _ when h <> "-" -> h | _ -> "" in
+    let before = List.init (String.length hist) (fun i -> match hist.[i] with
+      | 'A' -> CbScript ([], z_of_int 1) | 'R' -> CbScript ([], z_of_int 0) | _ -> CbNone) in
     let cb = match mode.[0] with
       | 'A' -> CbScript ([], z_of_int 1)
       | 'R' -> CbScript ([], z_of_int 0)
@@ -19,7 +23,7 @@ let () = iter_lines (fun line ->
       | 'P' -> CbByCert ([(z_of_int (Char.code mode.[1] - 48), z_of_int 1)], z_of_int 0)
       | 'Q' -> CbByCert ([(z_of_int (Char.code mode.[1] - 48), z_of_int 0)], z_of_int 1)
       | _ -> CbNone in
-    let sc = { s_trust = (mode.[0] = 'T'); s_cafile = (ca = "ca" || ca = "badca"); s_capath = (ca = "cadir"); s_cb = cb;
+    let sc = { s_trust = (mode.[0] = 'T'); s_cafile = (ca = "ca" || ca = "badca"); s_capath = (ca = "cadir"); s_cb_before = before; s_cb = cb;
                s_entry = (if String.length entry >= 6 && String.sub entry 0 6 = "legacy" then ELegacy else EStartTls);
                s_mandatory = (String.length entry > 2 && String.sub entry (String.length entry - 2) 2 = "+m");
                s_ssl_ok = true; s_ca_ok = (ca <> "badca");
@@ -32,7 +36,11 @@ let () = iter_lines (fun line ->
                 Printf.sprintf "%d/%d/%d/%s" (int_of_z g.v_mode) (if int_of_z g.v_cb = 0 then 0 else 1) (int_of_z g.v_hostflags) (b2s g.v_host)
               | _ -> acc) "none" tr in
     let v = String.concat "," (List.filter_map (function OVerify (p, r) -> Some (Printf.sprintf "%d%d" (int_of_z p) (int_of_z r)) | _ -> None) tr) in
-    let cbn = List.length (List.filter (function OCertfail _ -> true | _ -> false) tr) in
+    (* calls that go to a handler of the history rather than to the one set last (only when the model, following the
+       source, does not let the last setting win) *)
+    let stale = effective_cb sc <> cb in
+    let ncalls = List.length (List.filter (function OCertfail _ -> true | _ -> false) tr) in
+    let cbn = if stale then 0 else ncalls in
     let shown = String.concat "" (List.filter_map (function OCertfail (_, c, _) -> Some (string_of_int (int_of_z c)) | _ -> None) tr) in
     let ts = List.length (List.filter (function OTlsStart _ -> true | _ -> false) tr) in
     let ev = String.concat "," (List.filter_map (function OConnect s -> Some ("C" ^ b2s s) | ODisconnect (s, e) -> Some ("D" ^ b2s s ^ "/" ^ err e) | _ -> None) tr) in
@@ -46,7 +54,7 @@ let () = iter_lines (fun line ->
       | _ -> ()) tr;
     let nd = List.length (List.filter (function ODisconnect _ -> true | _ -> false) tr) in
     let crash = List.exists (function OCrash -> true | _ -> false) tr in
-    Printf.sprintf "cfg=%s v=%s cbn=%d sh=%s ts=%d ev=%s sec=%s/%s cw=%s|%s t=%s nd=%d crash=%s pol=%s"
-      cfg (dash v) cbn (dash shown) ts (dash ev) (b2s secmax) (b2s secfin) (dash (Buffer.contents cw0)) (dash (Buffer.contents cw1))
+    Printf.sprintf "cfg=%s v=%s cbn=%d stale=%d sh=%s ts=%d ev=%s sec=%s/%s cw=%s|%s t=%s nd=%d crash=%s pol=%s"
+      cfg (dash v) cbn (if stale then ncalls else 0) (dash (if stale then "" else shown)) ts (dash ev) (b2s secmax) (b2s secfin) (dash (Buffer.contents cw0)) (dash (Buffer.contents cw1))
       (dash (Buffer.contents t)) nd (b2s crash) (b2s (policy_ok sc))
   | _ -> "bad-input")
